@@ -20,7 +20,7 @@ RULE = (
     "replace a token, truncate, unbalance a brace or quote); (c) a valid program with exactly one injected static error "
     "from the property's list (stray break/continue/break_loop, undefined label for jump/call, switch ending in an empty "
     "case, two defaults, statements in a message switch, label in a with-block, not on an ordinary bit test, unknown / "
-    "recursive macro (also call cycles of 1-4 macros whose members partly shadow macros of an imported file), too few macro arguments, missing / cyclic import, routine in an imported file); (d) degenerate "
+    "targeted routine headers with an unknown target kind or a decimal target, recursive macro (also call cycles of 1-4 macros whose members partly shadow macros of an imported file), too few macro arguments, missing / cyclic import, routine in an imported file); (d) degenerate "
     "files (label-only routines, alias first, routine ids out of order / with gaps / negative, meta-attribute-only files, "
     "empty text); (e) arbitrary Unicode text and text over an ExplorerScript-like alphabet; (f) SsbScript sources behind the is-ssb-script marker line, intact, truncated or with inserted junk (they are handed to the SsbScript compiler). Oracle: the call returns or "
     "raises ParseError / SsbCompilerError / ValueError; class (c) must raise one of them and leave no routine output. "
@@ -37,7 +37,7 @@ CASES = {"quick": 6400, "thorough": 150000}
 ERRS = [
     "stray_break", "stray_continue", "stray_break_loop", "undef_jump", "undef_call", "empty_last_case", "two_defaults",
     "stmt_in_msgswitch", "label_in_with", "not_on_bit", "unknown_macro", "recursive_macro", "self_recursive_macro",
-    "too_few_args", "missing_import", "cyclic_import", "routine_in_import", "missing_lookup_import", "macro_cycle",
+    "too_few_args", "missing_import", "cyclic_import", "routine_in_import", "missing_lookup_import", "macro_cycle", "routine_header",
 ]
 SNIPPET = {
     "stray_break": "break;",
@@ -135,6 +135,17 @@ def inject(prog, err, at):
         files["cyc_a.exps"] = 'import "./cyc_b.exps";\nmacro ca() { inj_x(); }\n'
         files["cyc_b.exps"] = 'import "./cyc_a.exps";\nmacro cb() { inj_y(); }\n'
         return 'import "./cyc_a.exps";\n' + r.text, files
+    if err == "routine_header":
+        # targeted routine headers: an unknown target kind, or a decimal number as target, with every target spelling
+        kinds = ["foo", "Actor", "actors", "actor", "object", "performer"]
+        targets = ["3", "ACTOR_PLAYER", "$x", "1.5", "-1", "0x10", "-.5", "007.50"]
+        kind = kinds[at % len(kinds)]
+        tgt = targets[(at // len(kinds)) % len(targets)]
+        paren = (at // 64) % 2
+        head = f"def 0 for {kind}({tgt})" if paren else f"def 0 for {kind} {tgt}"
+        if kind in ("actor", "object", "performer") and "." not in tgt:
+            return None, None  # a valid header: not an error case
+        return head + " { inj_x(); end; }\n", files
     if err == "macro_cycle":
         # a call cycle of 1-4 macros; each member is defined locally, and a drawn subset of the names is ALSO supplied
         # (with a harmless body) by an imported file - the local definition shadows the imported one
